@@ -28,7 +28,8 @@ MIN = {'quick': {'distinct': 2000,
                             'binarize: head in the middle': 300,
                             'binarize: unmarked rejected': 100,
                             'collapse: root chain>=3': 100,
-                            'collapse: chain above token': 300}},
+                            'collapse: chain above token': 300,
+                            'collapse: empty-string label in a chain': 60}},
        'thorough': {'distinct': 80000,
                     'hooks': {'transform.binarize': 100000}}}
 
@@ -347,7 +348,19 @@ def chain_tree(rng, pools):
                     moves=rng.choice([0, 0, 1, 3]),
                     root_pieces=rng.choice([1, 1, 2]),
                     p_root_unary=rng.choice([0, 0.4, 0.7]))
+    if rng.random() < 0.06:
+        # a constituent of a unary chain whose label is the empty string (a
+        # tree built through the API, a TIGER-XML node with cat=""): the
+        # labels are joined with '+' all the same, `NP+` / `+S` / `A++B`
+        cands = [n for n in gen.walk(spec['root'])
+                 if 'c' in n and n is not spec['root'] and len(n['c']) == 1]
+        if cands:
+            rng.choice(cands)['l'] = ''
+            EMPTY_LABEL[0] += 1
     return spec
+
+
+EMPTY_LABEL = [0]
 
 
 def shard(ctx):
@@ -409,7 +422,10 @@ def shard(ctx):
             ctx.sample({'binarize': model.show(model.from_spec(spec['root']), '')})
     for i in ctx.indices(ctx.pick(4000, 1000000)):
         rng = ctx.rng('chain', i)
+        n0 = EMPTY_LABEL[0]
         spec = chain_tree(rng, pools)
+        if EMPTY_LABEL[0] != n0:
+            ctx.stratum('collapse: empty-string label in a chain')
         run_collapse(ctx, {'kind': 'collapse', 'spec': spec}, rng)
         if i < 2:
             ctx.sample({'collapse': model.show(model.from_spec(spec['root']), '')})
